@@ -402,7 +402,7 @@ def weight_sets(draw, with_unassigned):
         "vehicle_weight": [50.0, 1.0, 10.0, 100.0, 0.5, 16384.0],
         "tw_penalty": [1.0, 0.0, 10.0, 500.0, 1048576.0],
         "capacity_penalty": [1.0, 0.0, 10.0, 500.0],
-        "sync_penalty": [1.0, 0.0, 1048576.0, 10.0, 500.0],  # 2^20: scores of 1e9..1e10, where a relative 1e-9 is ~1
+        "sync_penalty": [1.0, 1048576.0, 0.0, 1048576.0, 10.0, 500.0],  # 2^20: scores of 1e9..1e10, where a relative 1e-9 is ~1
     }
     if with_unassigned:
         choices["unassigned_penalty"] = [1.0, 0.0, 1000.0, 250.0]
@@ -553,15 +553,22 @@ def boundary_cases(draw, tier="quick"):
                 "demand": draw(st.integers(0, 3)),
                 "tw": [s, None if width is None else s + width],
                 "service": draw(st.sampled_from([0, 1, 2])),
-                "req": draw(st.sampled_from([2, 1, 2, 1, min(3, k)])),
+                "req": draw(st.sampled_from([2, 1, 2, 1, 3])),  # 3 in a fleet of 2: a constant 1000*sync_penalty in every score
             }
         )
+    stop_interval = draw(st.sampled_from([1, 1, 2, 3, 5]))
     return {
         "problem": {"depot": depot, "customers": custs, "caps": [None] * k},
         "max_iter": draw(st.sampled_from([100, 100, 100, 200, 101, 300])),
         "seed": draw(st.integers(0, 2**31 - 1)),
-        "n_seeds": draw(st.integers(4, 8)),
-        "weights": draw(st.sampled_from([None, None, {"vehicle_weight": 50.0}, {"sync_penalty": 500.0, "tw_penalty": 10.0}])),
+        "n_seeds": draw(st.integers(3, 6)),
+        # second, short run per seed that a callback stops early, while new incumbents are still frequent
+        "stop": {"interval": stop_interval, "stop_at": stop_interval * draw(st.integers(1, 8))},
+        "weights": draw(
+            st.sampled_from(
+                [None, None, {"vehicle_weight": 50.0}, {"sync_penalty": 1048576.0}, {"sync_penalty": 500.0, "tw_penalty": 10.0}, {"tw_penalty": 1048576.0}, None]
+            )
+        ),
     }
 
 
@@ -578,10 +585,18 @@ def run_vrptw_boundary(desc, ctx):
     ctx.size("customers", M.n)
     ctx.nontrivial(bool(M.multi))
     boundary_hits = late = 0
+    ctx.label("custom-weights" if desc["weights"] else "default-weights")
     for i in range(desc["n_seeds"]):
         kw = {"seed": desc["seed"] + i, "max_iter": desc["max_iter"], **(desc["weights"] or {})}
+        if desc.get("stop"):
+            _, _, _, tr, want = solve_and_check(ctx, M, customers, vehicles, tuple(p["depot"]), kw, w, desc["stop"])
+            ctx.count("stopped-solves")
+            if len(tr) >= 2 and tr[-1][1] < tr[-2][1]:
+                ctx.count("stop-report-shows-a-new-best")
+                ctx.label("stop-report-shows-a-new-best")
         res, info, parts, trace, want = solve_and_check(ctx, M, customers, vehicles, tuple(p["depot"]), kw, w, {"interval": 1, "stop_at": None}, where="solve_vrptw")
         ctx.count("solves")
+        ctx.label(want >= 1e6 and "penalty-dominated(>=1e6)", want >= 1e9 and "penalty-dominated(>=1e9)")
         best = [b for _, b in trace]
         for it in range(100, len(best) + 1, 100):  # iteration `it` is best[it-1]
             if best[it - 1] < best[it - 2]:
@@ -755,6 +770,6 @@ def vrp_machine(ctx, tier):
 SUBS = [
     Sub("job_shop", run_job_shop, strategy=lambda tier: jobshops(tier), quick=1000, thorough=2500, workers_quick=4, wall_thorough=420.0),
     Sub("vrptw_solve", run_vrptw_solve, strategy=lambda tier: solve_cases(tier), quick=250, thorough=500, workers_quick=4, wall_quick=80.0, wall_thorough=420.0),
-    Sub("vrptw_boundary", run_vrptw_boundary, strategy=lambda tier: boundary_cases(tier), quick=110, thorough=500, workers_quick=4, wall_quick=80.0, wall_thorough=420.0),
+    Sub("vrptw_boundary", run_vrptw_boundary, strategy=lambda tier: boundary_cases(tier), quick=130, thorough=500, workers_quick=4, wall_quick=80.0, wall_thorough=420.0),
     Sub("vrp_operators", run_vrp_history, machine=vrp_machine, quick=300, thorough=1000, wall_thorough=420.0, steps_quick=30, steps_thorough=30, workers_quick=4, wall_quick=80.0),
 ]
